@@ -3,6 +3,7 @@ import json
 import logging
 import os
 import pickle
+import threading
 
 from .sensor import ChildSensor, Sensor
 
@@ -18,6 +19,7 @@ class Persistence:
         self.need_save = True
         self.persistence_file = persistence_file
         self.persistence_bak = f"{self.persistence_file}.bak"
+        self._save_lock = threading.Lock()
         self.schedule_save_sensors = schedule_factory(self.save_sensors)
 
     def _save_pickle(self, filename):
@@ -45,6 +47,15 @@ class Persistence:
             self._sensors.update(json.load(file_handle, cls=MySensorsJSONDecoder))
 
     def save_sensors(self):
+        """Save sensors to file.
+
+        Only one save at a time may use the temporary and backup files.
+        The final save at stop waits for a scheduled save that is running.
+        """
+        with self._save_lock:
+            self._save_sensors()
+
+    def _save_sensors(self):
         """Save sensors to file."""
         if not self.need_save:
             return
